@@ -288,7 +288,27 @@ def decls(ts):
     return out
 
 
-POSITIONS = ("init", "assign", "cast", "refcast")
+POSITIONS = ("init", "assign", "cast", "refcast", "arg", "refarg", "return")
+PROPERTY_POSITIONS = ("init", "assign")     # the property's "initialisation and assignment" sentence; cast/refcast: its conversion sentence
+EXTRA_POSITIONS = ("arg", "refarg", "return")   # additional coverage: not named by the property text
+
+
+def ddp_ref_name(t):
+    """the Referenz parameter type for t"""
+    n = ddp_name(t)
+    if t[0] == "P":
+        return dict(Z="Zahlen Referenz", K="Kommazahlen Referenz", B="Byte Referenz", W="Wahrheitswert Referenz", C="Buchstaben Referenz", T="Text Referenz")[t[1]]
+    if t[0] == "V":
+        return "Variablen Referenz"
+    if t[0] == "L":
+        return n[:-len("Liste")] + "Listen Referenz"
+    return n + " Referenz"
+
+
+def ddp_ret_name(t):
+    if masc(t):
+        return "einen Buchstaben" if t[1] == "C" else "einen " + ddp_name(t)
+    return "eine " + ddp_name(t)
 
 
 def program(T, V, only=None):
@@ -324,6 +344,20 @@ def program(T, V, only=None):
     fn("fc", pv, "Die Variable y ist %s als %s." % (val, tn), "cast")
     if not void:
         fn("fd", [("v", vn), ("w", tn)], "Speichere w in v als %s." % tn, "refcast")
+    # additional positions: argument of a value parameter / of a Referenz parameter, returned value
+    if only is None or only in ("arg", "refarg"):
+        lines += ["Die Funktion fe mit dem Parameter x vom Typ %s, gibt nichts zurück, macht:" % tn, "\tDie Zahl q ist 1.", "Und kann so benutzt werden:", "\t\"fe <x>\"",
+                  "Die Funktion fr mit dem Parameter x vom Typ %s, gibt nichts zurück, macht:" % ddp_ref_name(T), "\tDie Zahl q ist 1.", "Und kann so benutzt werden:", "\t\"fr <x>\""]
+    fn("ff", pv, "fe %s." % val, "arg")
+    if not void:
+        fn("fh", pv, "fr v.", "refarg")
+    if only is None or only == "return":
+        head = "Die Funktion fg %sgibt %s zurück, macht:" % ("" if void else "mit dem Parameter v vom Typ %s, " % vn, ddp_ret_name(T))
+        lines.append(head)
+        lines.append("\tGib %s zurück." % val)
+        where["return"] = len(lines)
+        lines.append("Und kann so benutzt werden:")
+        lines.append("\t\"fg%s\"" % ("" if void else " <v>"))
     return "\n".join(lines) + "\n", where
 
 
@@ -533,7 +567,8 @@ def leg_types(ck, fnd, typex, model, pop):
 def leg_frontend(ck, fnd, typex, pop, res, pairs, codes):
     ts = pop.types
     mP = res["modelP"]
-    bad_assign, bad_cast = codes
+    want_code = dict(init=codes[0], assign=codes[0], cast=codes[1], refcast=codes[1], arg=codes[2], refarg=codes[2])
+    want_code["return"] = codes[3]
     jobs = []
     for (ti, vi) in pairs:
         src, where = program(ts[ti], ts[vi])
@@ -559,8 +594,7 @@ def leg_frontend(ck, fnd, typex, pop, res, pairs, codes):
             stray = f[2] != "0"
             for code, ln in errs:
                 pos = [p for p, l in where.items() if l == ln]
-                want = bad_assign if pos and pos[0] in ("init", "assign") else bad_cast
-                if not pos or code != want:
+                if not pos or code != want_code[pos[0]]:
                     stray = True
                 else:
                     verdict[pos[0]] = False
@@ -578,9 +612,18 @@ def leg_frontend(ck, fnd, typex, pop, res, pairs, codes):
                 dist[p][0 if acc else 1] += 1
                 col = 2 + POSITIONS.index(p)
                 # model rows: init/assign are indexed (t=T, v=V); casts (lhs=V, target=T)
-                m = mP[ti][col][vi] if p in ("init", "assign") else mP[vi][col][ti]
-                if p in ("init", "assign"):
+                m = mP[vi][col][ti] if p in ("cast", "refcast") else mP[ti][col][vi]
+                if p in PROPERTY_POSITIONS:
                     allowed = {o_assign(T, V)}
+                elif p in EXTRA_POSITIONS:
+                    # the property text does not name these positions; judged only by what it says everywhere:
+                    # equivalent types are interchangeable, a definition never converts implicitly
+                    if o_equal(T, V) and not o_void(V):
+                        allowed = {True}
+                    elif (top_def(T) or top_def(V)) and not o_any(T):
+                        allowed = {False}
+                    else:
+                        allowed = None
                 else:
                     allowed = o_cast(T, V, p == "refcast")
                 if allowed is not None and acc not in allowed:
@@ -628,7 +671,7 @@ def main():
     log("[c14] ddptypes leg: %d types, %d pairs in %.1fs" % (len(pop.types), len(pop.types) ** 2, time.time() - t0))
     # frontend leg
     codes = run_tool(typex, "C\n")[0].split()[1:]
-    codes = (int(codes[0]), int(codes[1]))
+    codes = tuple(int(c) for c in codes)
     d1 = [t for t in levels[0] + levels[1]]
     d2 = d1 + levels[2]
     d3 = d2 + levels[3]
@@ -677,6 +720,8 @@ def main():
                          "frontend positions: all ordered pairs of source-expressible types of depth <= %s (+ void as supplied type)" % ("2" if ck.quick else "3 incl. twin aliases/definitions")],
         frontend_programs=fr["programs"], frontend_pairs_exhaustive=len(full) * (len(full) + 1), frontend_pairs_sampled=len(pairs) - len(full) * (len(full) + 1),
         frontend_verdicts={p: dict(accept=v[0], reject=v[1]) for p, v in fr["dist"].items()},
+        positions_note="the property's sentence 'initialisation and assignment accept exactly ...' is about the positions init and assign (judged by the full oracle); cast/refcast are judged by its conversion sentence; "
+                       "arg (value parameter), refarg (Referenz parameter) and return are ADDITIONAL coverage: compared with the model (theorems C14_arg_char, C14_ref_arg_needs_equal, C14_return_char) and judged only by transparency/opacity",
         rule="non-trivial = ordered pair of DIFFERENT types related by Equal or DeepEqual in the implementation, or a position that accepts a supplied type not equivalent to the required one; distinct by (position, type specs)"))
     i0 = pop.index[spec(levels[2][5])] if len(levels[2]) > 5 else 0
     ck.sample(dict(type=spec(pop.types[i0]), canonical=canon(pop.types[i0])))
